@@ -23,7 +23,7 @@ func init() {
 		Stub:           []string{"UDP socket read loop (modelled: leading 80 bytes of datagrams >= 80 bytes)", "HTTP/TCP accept loops"},
 		Assumptions:    []string{"device capacities below 2^56 so that capacity*135 fits 64 bits", "fresh ids always carry fresh keys"},
 		RequiredProbes: []string{"c02.equivocation", "c02.over-capacity", "c02.replay", "c02.resigned", "c02.negative"},
-		RequiredSites:  []string{"report.after-write", "impact.wake"},
+		RequiredSites:  []string{"report.after-write", "report.before-write"},
 	})
 }
 
